@@ -1,5 +1,7 @@
 CONSTANTS
   Dev = {"D_ttl0_node_panic"}
+  AnchorForms = {"dnskey"}
+  Cfgs = {"default"}
   MaxRuns = 1
   EntQKinds = {"positive", "nxdomain", "ds"}
   Budget = 1
